@@ -14,7 +14,7 @@ use serde_json::json;
 
 use crate::c19::scenario_batch_cancelling_errors;
 use crate::common::*;
-use crate::rng::TestRng;
+use crate::rng::{bounded, scripted_period, ScriptRng, TestRng};
 use crate::{scn, Scenario};
 
 pub fn scenarios() -> Vec<Scenario> {
@@ -25,6 +25,7 @@ pub fn scenarios() -> Vec<Scenario> {
         scn!(scenario_refresh_randomness),
         scn!(scenario_randomizer_and_key_randomness),
         scn!(scenario_batch_blinders),
+        scn!(scenario_repeating_source_reproducible),
         // the observable consequence of equal blinders: errors that cancel are accepted
         scn!(scenario_batch_cancelling_errors),
     ]
@@ -209,12 +210,18 @@ pub fn scenario_randomizer_and_key_randomness<C: Suite>(rng: &mut TestRng, p: &P
     check(a.1.iter().any(|x| *x != 0), "the randomizer seed is drawn from the random source", "non-zero bytes", "all zero")
 }
 
-/// Batch verification draws one blinder per item from the supplied source.
+/// Batch verification draws one blinder per item from the supplied source: a recording source shows that `verify`
+/// (the only function of the verifier that is handed a source: all draws happen after the items are fixed) draws, for a
+/// batch of k items, at least k times what it draws for one item, for k = 1, 2, 3, n with n up to 64; the size of one
+/// `Field::random` draw is recorded next to it.
 pub fn scenario_batch_blinders<C: Suite>(rng: &mut TestRng, _p: &Params, notes: &mut Notes) -> Verdict {
     use frost_core::batch;
     let sk = fc::SigningKey::<C>::new(rng);
     let vk = fc::VerifyingKey::<C>::from(&sk);
-    let n = rng.range(2, 9);
+    let n = match rng.below(4) {
+        0 => [16usize, 33, 64][rng.below(3)],
+        _ => rng.range(2, 9),
+    };
     notes.insert("batch_size".into(), json!(n));
     let items: Vec<batch::Item<C>> = (0..n)
         .filter_map(|i| {
@@ -235,14 +242,114 @@ pub fn scenario_batch_blinders<C: Suite>(rng: &mut TestRng, _p: &Params, notes: 
         }
         (v.verify(&mut src).is_ok(), src.bytes_drawn)
     };
+    // what one scalar sampled from the same source costs (information; 128-bit blinders would be smaller)
+    let mut probe = TestRng::new(seed);
+    let _ = <Fd<C> as fc::Field>::random(&mut probe);
+    notes.insert("bytes_of_one_field_random_draw".into(), json!(probe.bytes_drawn));
     let (ok1, b1) = drawn(1);
-    let (okn, bn) = drawn(n);
-    check(ok1 && okn, "batches of valid signatures verify", "Ok", "Err")?;
+    check(ok1, "a batch of one valid signature verifies", "Ok", "Err")?;
     check(b1 > 0, "batch verification draws its blinder from the supplied random source", "> 0 bytes", "0 bytes")?;
-    check(
-        bn >= n as u64 * b1,
-        "batch verification obtains one blinder per item from distinct draws of the supplied random source",
-        format!("at least {} bytes for {n} items ({b1} bytes for one item)", n as u64 * b1),
-        format!("{bn} bytes"),
-    )
+    notes.insert("bytes_drawn_for_one_item".into(), json!(b1));
+    let mut sizes = vec![2usize, 3, n / 2, n];
+    sizes.retain(|k| *k >= 2 && *k <= n);
+    sizes.dedup();
+    for k in sizes {
+        let (ok, bk) = drawn(k);
+        check(ok, "batches of valid signatures verify", "Ok", format!("Err for {k} items"))?;
+        check(
+            bk >= k as u64 * b1,
+            "batch verification obtains one blinder per item from distinct draws of the supplied random source",
+            format!("at least {} bytes for {k} items ({b1} bytes for one item; one Field::random draw takes {} bytes)", k as u64 * b1, probe.bytes_drawn),
+            format!("{bk} bytes"),
+        )?;
+    }
+    Ok(())
+}
+
+/// "With the same source output the whole computation is reproducible bit for bit" for sources whose output is constant or
+/// repeats (rng::scripted_period, restricted to bytes that no rejection sampler refuses): every entry point that takes a
+/// random source returns, and returns the same result from an equal source.  (Distinctness of the drawn values cannot be
+/// required from a repeating source.)  A call that keeps drawing from such a source without end is a failure: it never
+/// produces the reproducible result.
+pub fn scenario_repeating_source_reproducible<C: Suite>(rng: &mut TestRng, p: &Params, notes: &mut Notes) -> Verdict {
+    let ids = make_ids::<C>(&p.ids)?;
+    let (kind, period) = scripted_period(rng, true);
+    notes.insert("random_source".into(), json!(kind));
+    notes.insert("random_source_period_hex".into(), json!(hex(&period)));
+    let entry = ["dealer", "split", "dkg-part1", "refresh-dealer", "refresh-dkg-part1", "repair-part1", "signing-key-and-sign", "randomizer", "commit"][rng.below(9)];
+    notes.insert("entry_point".into(), json!(entry));
+    let src = || ScriptRng::new(period.clone());
+    // a call fed by the scripted source, twice; `what` names it
+    fn twice<T: PartialEq>(what: &str, f: impl Fn() -> T) -> Result<T, Stop> {
+        let run = || bounded(&f);
+        match (run(), run()) {
+            (Ok(a), Ok(b)) => {
+                check(a == b, &format!("{what} is reproducible from the same (repeating) random stream"), "identical output", "different output")?;
+                Ok(a)
+            }
+            _ => fail(
+                &format!("{what} returns when its random source repeats itself"),
+                "a result after a bounded number of draws",
+                "the call keeps drawing from the source",
+            ),
+        }
+    }
+    let id = match ids.first() {
+        Some(i) => *i,
+        None => return skip("internal"),
+    };
+    match entry {
+        "dealer" => {
+            let r = twice("generate_with_dealer", || keys::generate_with_dealer::<C, _>(p.n, p.t, IdentifierList::Custom(&ids), &mut src()))?;
+            need(r, "generate_with_dealer from a repeating source").map(|_| ())
+        }
+        "split" => {
+            let sk = fc::SigningKey::<C>::new(rng);
+            let r = twice("split", || keys::split::<C, _>(&sk, p.n, p.t, IdentifierList::Custom(&ids), &mut src()))?;
+            need(r, "split from a repeating source").map(|_| ())
+        }
+        "dkg-part1" => {
+            let r = twice("dkg::part1", || dkg::part1::<C, _>(id, p.n, p.t, src()))?;
+            need(r, "dkg::part1 from a repeating source").map(|_| ())
+        }
+        "refresh-dealer" => {
+            let keys = keygen::<C>(rng, p, false)?;
+            let r = twice("compute_refreshing_shares", || refresh::compute_refreshing_shares::<C, _>(keys.pubkeys.clone(), &keys.ids, &mut src()))?;
+            need(r, "compute_refreshing_shares from a repeating source").map(|_| ())
+        }
+        "refresh-dkg-part1" => {
+            let r = twice("refresh_dkg_part1", || refresh::refresh_dkg_part1::<C, _>(id, p.n, p.t, src()))?;
+            need(r, "refresh_dkg_part1 from a repeating source").map(|_| ())
+        }
+        "repair-part1" => {
+            let keys = keygen::<C>(rng, p, false)?;
+            let target = need(Id::<C>::derive(b"participant under repair"), "derive")?;
+            let kp = match keys.key_packages.get(&id) {
+                Some(k) => k.clone(),
+                None => return skip("internal"),
+            };
+            if keys.ids.contains(&target) {
+                return skip("collision");
+            }
+            let r = twice("repair_share_part1", || repairable::repair_share_part1::<C, _>(&keys.ids, &kp, &mut src(), target))?;
+            need(r, "repair_share_part1 from a repeating source").map(|_| ())
+        }
+        "signing-key-and-sign" => {
+            let k = twice("SigningKey::new", || fc::SigningKey::<C>::new(&mut src()))?;
+            let sig = twice("SigningKey::sign", || k.sign(src(), &p.message))?;
+            must(fc::VerifyingKey::<C>::from(&k).verify(&p.message, &sig), "a signature made with nonce randomness from a repeating source verifies")
+        }
+        "randomizer" => {
+            let (keys, _signers, sess) = setup_session::<C>(rng, p)?;
+            let vk = keys.pubkeys.verifying_key();
+            let r = twice("RandomizedParams::new_from_commitments", || {
+                frost_rerandomized::RandomizedParams::<C>::new_from_commitments(vk, &sess.commitments, src()).map(|(a, b)| (a.randomizer().serialize(), b))
+            })?;
+            need(r, "new_from_commitments from a repeating source").map(|_| ())
+        }
+        _ => {
+            let share = make_signing_share::<C>(&random_nonzero_scalar::<C>(rng))?;
+            twice("round1::commit", || fc::round1::commit::<C, _>(&share, &mut src())).map(|_| ())
+        }
+    }
 }
